@@ -117,9 +117,7 @@ func extractPipelineParams(settings *simplejson.Json) *pipeline.Settings {
 			logger.Warn("invalid antispam_threshold value, antispam disabled")
 			antispamThreshold = pipeline.DefaultAntispamThreshold
 		}
-		if antispamThreshold != pipeline.DefaultAntispamThreshold {
-			antispamThreshold *= int(antispamMaintenanceInterval / time.Second)
-		}
+		antispamThreshold = scaleAntispamThreshold(antispamThreshold, antispamMaintenanceInterval)
 
 		antispamRules, err = extractAntispamRules(antispamSettings, antispamMaintenanceInterval)
 		if err != nil {
@@ -198,6 +196,20 @@ func extractAntispamExceptions(settings *simplejson.Json) (antispam.Exceptions, 
 	return exceptions, nil
 }
 
+// scaleAntispamThreshold turns a threshold given in events per second into events per maintenance interval.
+// Zero (block everything) and -1 (antispam disabled) are kept; a positive threshold stays positive
+// whatever the interval is, a sub-second one included.
+func scaleAntispamThreshold(threshold int, interval time.Duration) int {
+	if threshold <= 0 {
+		return threshold
+	}
+	scaled := int(int64(threshold) * int64(interval/time.Millisecond) / 1000)
+	if scaled < 1 {
+		scaled = 1
+	}
+	return scaled
+}
+
 func extractAntispamRules(settings *simplejson.Json, antispamMaintenanceInterval time.Duration) (antispam.Rules, error) {
 	rulesJSON := settings.Get("rules")
 	rulesRaw := rulesJSON.MustArray()
@@ -219,9 +231,7 @@ func extractAntispamRules(settings *simplejson.Json, antispamMaintenanceInterval
 			logger.Warnf("invalid threshold value, antispam disabled for rule #%d", i)
 			threshold = pipeline.DefaultAntispamThreshold
 		}
-		if threshold != pipeline.DefaultAntispamThreshold {
-			threshold *= int(antispamMaintenanceInterval / time.Second)
-		}
+		threshold = scaleAntispamThreshold(threshold, antispamMaintenanceInterval)
 
 		doIfChecker, err := extractDoIfChecker(ruleJSON.Get("do_if"))
 		if err != nil {
